@@ -25,6 +25,7 @@ only by an early `if self.is_vitamin: return` is counted as unconditional and re
 from __future__ import annotations
 
 import ast
+import copy
 
 from harness.common import TranslateError, ast_digest, src_text
 
@@ -34,6 +35,208 @@ GAME_LUMP_BASE = 64
 def _is_self_attr(node: ast.AST, attr: str | None = None) -> bool:
     return (isinstance(node, ast.Attribute) and isinstance(node.value, ast.Name) and node.value.id == 'self'
             and (attr is None or node.attr == attr))
+
+
+# ---------------------------------------------------------------------------------- normalisation (round 3)
+STABLE_ATTRS = {'lumps', 'game_lumps', '_parsed_lumps', '_save_funcs'}
+
+
+def _module_const_names(tree: ast.Module) -> set[str]:
+    """Module-level names bound exactly once (by a plain assignment) in the whole module."""
+    count: dict[str, int] = {}
+    for n in ast.walk(tree):
+        if isinstance(n, ast.Name) and isinstance(n.ctx, (ast.Store, ast.Del)):
+            count[n.id] = count.get(n.id, 0) + 1
+        elif isinstance(n, (ast.Global, ast.Nonlocal)):
+            for nm in n.names:
+                count[nm] = count.get(nm, 0) + 2
+    out = set()
+    for st in tree.body:
+        tg = None
+        if isinstance(st, ast.Assign) and len(st.targets) == 1 and isinstance(st.targets[0], ast.Name):
+            tg = st.targets[0].id
+        elif isinstance(st, ast.AnnAssign) and isinstance(st.target, ast.Name) and st.value is not None:
+            tg = st.target.id
+        if tg is not None and count.get(tg) == 1:
+            out.add(tg)
+    return out
+
+
+def _is_stable_ref(v: ast.AST, roots: set[str], consts: set[str]) -> bool:
+    """`self.lumps`, `self.game_lumps`, `self._parsed_lumps`, `self._save_funcs`, one fixed element of the first two
+    (`self.lumps[BSP_LUMPS.X]`, `instance.game_lumps[self.lump]`), or a module-level constant: expressions that denote the
+    same object wherever they are evaluated inside one lump function."""
+    def root_attr(x: ast.AST) -> bool:
+        return isinstance(x, ast.Attribute) and isinstance(x.value, ast.Name) and x.value.id in roots and x.attr in STABLE_ATTRS
+    if root_attr(v):
+        return True
+    if isinstance(v, ast.Name) and v.id in consts:
+        return True
+    if isinstance(v, ast.Subscript) and root_attr(v.value) and v.value.attr in ('lumps', 'game_lumps'):
+        k = v.slice
+        if isinstance(k, ast.Constant) or (isinstance(k, ast.Name) and k.id in consts):
+            return True
+        if isinstance(k, ast.Attribute) and isinstance(k.value, ast.Name) and k.value.id in ({'BSP_LUMPS'} | roots):
+            return True
+    return False
+
+
+def _inline_aliases(fn: ast.FunctionDef, consts: set[str]) -> None:
+    """In place: a local that is bound exactly once, by a plain assignment at the top level of the function body, to a
+    stable reference (see _is_stable_ref) is replaced by that expression at every use and the binding is dropped.
+    `lumps = self.lumps; lumps[K].data = x` thus reads `self.lumps[K].data = x`, `order = LUMP_REBUILD_ORDER; for v in order`
+    reads `for v in LUMP_REBUILD_ORDER`."""
+    params = {a.arg for a in fn.args.posonlyargs + fn.args.args + fn.args.kwonlyargs}
+    if fn.args.vararg:
+        params.add(fn.args.vararg.arg)
+    if fn.args.kwarg:
+        params.add(fn.args.kwarg.arg)
+    roots = {a.arg for a in (fn.args.posonlyargs + fn.args.args)[:2]}      # self (and `instance` of a descriptor)
+    for _ in range(4):          # an alias of an alias
+        stores: dict[str, int] = {}
+        for n in ast.walk(fn):
+            if isinstance(n, ast.Name) and isinstance(n.ctx, (ast.Store, ast.Del)):
+                stores[n.id] = stores.get(n.id, 0) + 1
+            elif isinstance(n, (ast.Global, ast.Nonlocal)):
+                for nm in n.names:
+                    stores[nm] = stores.get(nm, 0) + 2
+            elif isinstance(n, ast.arg) and n.arg not in params:      # lambda parameters shadow
+                stores[n.arg] = stores.get(n.arg, 0) + 2
+        # the roots' stable attributes must not be rebound inside the function
+        rebound = any(isinstance(n, ast.Attribute) and isinstance(n.ctx, (ast.Store, ast.Del)) and isinstance(n.value, ast.Name)
+                      and n.value.id in roots and n.attr in STABLE_ATTRS for n in ast.walk(fn))
+        subst: dict[str, ast.AST] = {}
+        keep = []
+        for st in fn.body:
+            tg = val = None
+            if isinstance(st, ast.Assign) and len(st.targets) == 1 and isinstance(st.targets[0], ast.Name):
+                tg, val = st.targets[0].id, st.value
+            elif isinstance(st, ast.AnnAssign) and isinstance(st.target, ast.Name) and st.value is not None:
+                tg, val = st.target.id, st.value
+            if tg is not None and tg not in params and stores.get(tg) == 1 and not rebound and tg not in subst \
+                    and _is_stable_ref(val, roots, consts) and not any(isinstance(x, ast.Name) and x.id in subst for x in ast.walk(val)):
+                subst[tg] = val
+            else:
+                keep.append(st)
+        if not subst:
+            return
+
+        class Sub(ast.NodeTransformer):
+            def visit_Name(self, node: ast.Name):
+                if isinstance(node.ctx, ast.Load) and node.id in subst:
+                    new = copy.deepcopy(subst[node.id])
+                    for x in ast.walk(new):
+                        if hasattr(x, 'lineno'):
+                            x.lineno = node.lineno
+                    return new
+                return node
+        fn.body = keep
+        Sub().visit(fn)
+        for n in ast.walk(fn):      # a substituted object that is the target of `.data = ` keeps Store on the attribute only
+            if isinstance(n, ast.Attribute) and isinstance(n.ctx, ast.Store):
+                for x in ast.walk(n.value):
+                    if hasattr(x, 'ctx'):
+                        x.ctx = ast.Load()
+        ast.fix_missing_locations(fn)
+
+
+def _const_list(node: ast.AST, tree: ast.Module, consts: set[str], where: str, depth: int = 0) -> list[ast.AST]:
+    """Elements of a module-level list expression: a list/tuple display, `a + b`, `[*a, x]`, `list(a)`, or the name of a
+    module-level constant bound to one of these."""
+    if depth > 6:
+        raise TranslateError(f'{where}: list expression nested too deeply')
+    if isinstance(node, (ast.List, ast.Tuple)):
+        out: list[ast.AST] = []
+        for e in node.elts:
+            if isinstance(e, ast.Starred):
+                out += _const_list(e.value, tree, consts, where, depth + 1)
+            else:
+                out.append(e)
+        return out
+    if isinstance(node, ast.BinOp) and isinstance(node.op, ast.Add):
+        return _const_list(node.left, tree, consts, where, depth + 1) + _const_list(node.right, tree, consts, where, depth + 1)
+    if isinstance(node, ast.Call) and isinstance(node.func, ast.Name) and node.func.id in ('list', 'tuple') and len(node.args) == 1 \
+            and not node.keywords:
+        return _const_list(node.args[0], tree, consts, where, depth + 1)
+    if isinstance(node, ast.Name) and node.id in consts and node.id != 'BSP_LUMPS':
+        for st in tree.body:
+            tg = st.targets[0] if isinstance(st, ast.Assign) and len(st.targets) == 1 else getattr(st, 'target', None)
+            if isinstance(tg, ast.Name) and tg.id == node.id and getattr(st, 'value', None) is not None:
+                return _const_list(st.value, tree, consts, where, depth + 1)
+    raise TranslateError(f'{where}: not a list display (or a sum / unpacking of list displays): {ast.unparse(node)[:80]}')
+
+
+def _inline_helper_calls(body: list[ast.stmt], methods: dict[str, ast.FunctionDef], funcs: dict[str, ast.FunctionDef],
+                         self_name: str, where: str, depth: int = 0) -> list[ast.stmt]:
+    """A statement that is just a call of a method of the same class (`self.h(a, b)`) or of a module-level function
+    (`h(a, b)`) is replaced by the body of `h` with the parameters replaced by the argument expressions.  Only helpers
+    without a return value, without yield/nested definitions and whose parameters are not rebound are followed; the
+    arguments must be names, attributes of names or constants (evaluating them has no effect)."""
+    if depth > 4:
+        raise TranslateError(f'{where}: helper calls nested too deeply')
+    out: list[ast.stmt] = []
+    for st in body:
+        for fld in ('body', 'orelse', 'finalbody'):
+            if isinstance(getattr(st, fld, None), list) and not isinstance(st, (ast.FunctionDef, ast.ClassDef, ast.AsyncFunctionDef)):
+                setattr(st, fld, _inline_helper_calls(getattr(st, fld), methods, funcs, self_name, where, depth))
+        for h in getattr(st, 'handlers', []):
+            h.body = _inline_helper_calls(h.body, methods, funcs, self_name, where, depth)
+        call = st.value if isinstance(st, ast.Expr) and isinstance(st.value, ast.Call) else None
+        target = None
+        if call is not None:
+            f = call.func
+            if isinstance(f, ast.Attribute) and isinstance(f.value, ast.Name) and f.value.id == self_name and f.attr in methods:
+                target, bound = methods[f.attr], [ast.Name(id=self_name, ctx=ast.Load())]
+            elif isinstance(f, ast.Name) and f.id in funcs:
+                target, bound = funcs[f.id], []
+        if target is None:
+            out.append(st)
+            continue
+        hw = f'{where}:{st.lineno}: helper {target.name}'
+        a = target.args
+        if a.vararg or a.kwarg or a.kwonlyargs or a.defaults or a.posonlyargs or target.decorator_list:
+            raise TranslateError(f'{hw}: signature with defaults / *args / decorators is not followed')
+        params = [x.arg for x in a.args]
+        args = bound + list(call.args)
+        if any(isinstance(x, ast.Starred) for x in args) or len(args) + len(call.keywords) != len(params):
+            raise TranslateError(f'{hw}: arguments do not match the parameters')
+        amap = dict(zip(params, args))
+        for kw in call.keywords:
+            if kw.arg is None or kw.arg not in params or kw.arg in amap:
+                raise TranslateError(f'{hw}: keyword argument not matched')
+            amap[kw.arg] = kw.value
+        for x in amap.values():
+            simple = isinstance(x, (ast.Name, ast.Constant)) or (isinstance(x, ast.Attribute) and isinstance(x.value, ast.Name)) \
+                or (isinstance(x, ast.Subscript) and isinstance(x.value, ast.Attribute) and isinstance(x.value.value, ast.Name)
+                    and isinstance(x.slice, ast.Slice))
+            if not simple:
+                raise TranslateError(f'{hw}: argument {ast.unparse(x)} is not a plain name / attribute')
+        hbody = copy.deepcopy(target.body)
+        if hbody and isinstance(hbody[0], ast.Expr) and isinstance(hbody[0].value, ast.Constant) and isinstance(hbody[0].value.value, str):
+            hbody = hbody[1:]       # docstring
+        if hbody and isinstance(hbody[-1], ast.Return) and hbody[-1].value is None:
+            hbody = hbody[:-1]
+        for n in [x for b in hbody for x in ast.walk(b)]:
+            if isinstance(n, (ast.Return, ast.Yield, ast.YieldFrom, ast.FunctionDef, ast.AsyncFunctionDef, ast.ClassDef, ast.Lambda,
+                              ast.Global, ast.Nonlocal)):
+                raise TranslateError(f'{hw}: return / yield / nested definition inside the helper is not followed')
+            if isinstance(n, ast.Name) and n.id in amap and not isinstance(n.ctx, ast.Load):
+                raise TranslateError(f'{hw}: parameter {n.id} is rebound')
+
+        class Sub(ast.NodeTransformer):
+            def visit_Name(self, node: ast.Name):
+                if node.id in amap:
+                    new = copy.deepcopy(amap[node.id])
+                    for x in ast.walk(new):
+                        if hasattr(x, 'lineno'):
+                            x.lineno = node.lineno
+                    return new
+                return node
+        hbody = [Sub().visit(b) for b in hbody]
+        for b in hbody:
+            ast.fix_missing_locations(b)
+        out += _inline_helper_calls(hbody or [ast.Pass(lineno=st.lineno, col_offset=0)], methods, funcs, self_name, where, depth + 1)
+    return out
 
 
 class _Module:
@@ -63,6 +266,12 @@ class _Module:
         raise TranslateError(f'{where}: lump index is not a BSP_LUMPS member or game-lump constant: {ast.unparse(node)}')
 
     def _scan(self) -> None:
+        self.const_names = _module_const_names(self.tree)
+        for n in self.tree.body:        # normalise the functions the translator interprets (see _inline_aliases)
+            if isinstance(n, ast.ClassDef) and n.name in ('BSP', 'ParsedLump'):
+                for f in n.body:
+                    if isinstance(f, ast.FunctionDef):
+                        _inline_aliases(f, self.const_names)
         for n in self.tree.body:
             if isinstance(n, ast.ClassDef) and n.name == 'BSP_LUMPS':
                 for st in n.body:
@@ -83,9 +292,8 @@ class _Module:
             elif isinstance(n, ast.Assign) and len(n.targets) == 1 and isinstance(n.targets[0], ast.Name):
                 tgt, val = n.targets[0].id, n.value
             if tgt == 'LUMP_REBUILD_ORDER':
-                if not isinstance(val, ast.List):
-                    raise TranslateError(f'bsp.py:{n.lineno}: LUMP_REBUILD_ORDER is not a list literal')
-                self.order = [self.lump_key(e, f'bsp.py:{e.lineno} LUMP_REBUILD_ORDER') for e in val.elts]
+                elts = _const_list(val, self.tree, self.const_names, f'bsp.py:{n.lineno} LUMP_REBUILD_ORDER')
+                self.order = [self.lump_key(e, f'bsp.py:{e.lineno} LUMP_REBUILD_ORDER') for e in elts]
             if isinstance(n, ast.ClassDef) and n.name == 'BSP':
                 self.bsp = n
         # LUMP_REBUILD_ORDER must not be mutated after its definition
@@ -401,6 +609,27 @@ def _get_shape(tree: ast.Module) -> dict:
         raise TranslateError('ParsedLump.__get__ not found')
     where = f'bsp.py ParsedLump.__get__'
     inst = fn.args.args[1].arg
+    me = fn.args.args[0].arg
+    # helpers of the descriptor (methods of ParsedLump, module-level functions) called as statements are inlined; any other
+    # code that is handed the BSP object (or one of its lump tables) could clear / cache anything: fail closed
+    methods = {f.name: f for f in cls.body if isinstance(f, ast.FunctionDef) and not f.name.startswith('__')}
+    funcs = {f.name: f for f in tree.body if isinstance(f, ast.FunctionDef)}
+    fn = copy.deepcopy(fn)
+    fn.body = _inline_helper_calls(fn.body, methods, funcs, me, where)
+    for n in ast.walk(fn):
+        if isinstance(n, ast.Call):
+            is_reader = isinstance(n.func, ast.Attribute) and isinstance(n.func.value, ast.Name) and n.func.value.id == me \
+                and n.func.attr == '_read'
+            handed = [x for x in list(n.args) + [k.value for k in n.keywords]
+                      if any(isinstance(y, ast.Name) and y.id == inst for y in ast.walk(x))]
+            pure = isinstance(n.func, ast.Name) and n.func.id in ('len', 'isinstance', 'type', 'id', 'repr', 'str', 'bool')
+            if handed and not is_reader and not pure:
+                raise TranslateError(f'{where}:{n.lineno}: the BSP object is handed to code that is not followed: {ast.unparse(n)[:80]}')
+        if isinstance(n, (ast.Assign, ast.AnnAssign, ast.NamedExpr)) and getattr(n, 'value', None) is not None:
+            v = n.value
+            if (isinstance(v, ast.Name) and v.id == inst) or (isinstance(v, ast.Attribute) and isinstance(v.value, ast.Name)
+                                                              and v.value.id == inst and v.attr in STABLE_ATTRS):
+                raise TranslateError(f'{where}:{n.lineno}: the BSP object or one of its tables is aliased: {ast.unparse(n)[:80]}')
     alias: dict[str, str] = {}          # local name -> 'main' (an alias of the main Lump / GameLump object)
 
     def lump_kind(idx: ast.AST, bound: dict[str, str]) -> str:
@@ -410,6 +639,10 @@ def _get_shape(tree: ast.Module) -> dict:
             return 'all'
         if isinstance(idx, ast.Name) and bound.get(idx.id) in ('self.to_clear[1:]',):
             return 'extra'
+        if isinstance(idx, ast.Name) and bound.get(idx.id) in ('self.to_clear[:1]', 'self.to_clear[0:1]', '(self.lump,)', '[self.lump]'):
+            return 'main'
+        if isinstance(idx, ast.Subscript) and ast.unparse(idx) == 'self.to_clear[0]':
+            return 'main'
         raise TranslateError(f'{where}:{idx.lineno}: lump index {ast.unparse(idx)} is neither self.lump nor an element of self.to_clear')
 
     def is_lump_obj(x: ast.AST) -> bool:
@@ -448,7 +681,8 @@ def _get_shape(tree: ast.Module) -> dict:
                 raise TranslateError(f'{where}:{n.lineno}: _parsed_lumps.{n.func.attr}() in __get__')
         return loads + stores           # the right-hand side is evaluated before the targets are stored
 
-    ev_of.nonempty = lambda it: _is_self_attr(it, 'to_clear')       # (lump, *extra): never empty
+    ev_of.nonempty = lambda it: (_is_self_attr(it, 'to_clear')       # (lump, *extra): never empty
+                                 or ast.unparse(it) in ('self.to_clear[:1]', 'self.to_clear[0:1]', '(self.lump,)', '[self.lump]'))
     paths = _paths(fn.body, ev_of, where)
     early_main = early_extra = False
     uncached = False
